@@ -32,9 +32,11 @@ inductive Conseq (g : Graph) (prm : Params) : Nat → Loc → Prop where
   | symFlow {u : Nat} {e : Edge} : g.kindOf u = K_SYMBOL → e ∈ g.outE u →
       (e.etype = E_FLOW ∨ e.etype = E_IFLOW) → g.kindOf e.peer = K_SYMBOL →
       Conseq g prm u (symLoc g e.peer)
-  /-- state → every predecessor over SYMBOL_STATE or STATE_INCLUSION, in the SYMBOL table -/
+  /-- state → every predecessor over SYMBOL_STATE or STATE_INCLUSION, in the SYMBOL table (since the
+  repair `stateUpSymOnly`: every SYMBOL predecessor) -/
   | stateUp {u : Nat} {e : Edge} : g.kindOf u = K_STATE → e ∈ g.inE u →
-      (e.etype = E_SYMSTATE ∨ e.etype = E_INCL) → Conseq g prm u (symLoc g e.peer)
+      (e.etype = E_SYMSTATE ∨ e.etype = E_INCL) →
+      (prm.stateUpSymOnly = true → g.kindOf e.peer = K_SYMBOL) → Conseq g prm u (symLoc g e.peer)
   /-- state → included sub-states -/
   | stateDown {u : Nat} {e : Edge} : g.kindOf u = K_STATE → e ∈ g.outE u →
       g.kindOf e.peer = K_STATE → (e.etype = E_INCL ∨ e.etype = E_IINCL) →
@@ -152,7 +154,10 @@ def satRound (g : Graph) (prm : Params) (T : List Loc) : List Loc :=
 
 def satIter (g : Graph) (prm : Params) : Nat → List Loc → List Loc
   | 0, T => T
-  | k + 1, T => satIter g prm k (satRound g prm T)
+  | k + 1, T =>
+    let T' := satRound g prm T
+    -- a round only ever appends: equal length = nothing new = fixed point
+    if T'.length == T.length then T else satIter g prm k T'
 
 /-- every productive round adds one of at most 2·N locations -/
 def reachSat (g : Graph) (prm : Params) (src : Nat) : List Loc :=
